@@ -181,3 +181,237 @@ def c09(tier):
 
 
 CHECKS = {'C05': c05, 'C06': c06, 'C07': c07, 'C09': c09}
+
+
+def sweep_tool(binary, sub, spec, name):
+    """run `sqv icaosweep|burst|country`; returns trace path"""
+    import subprocess
+    wd = vlib.workdir()
+    out = os.path.join(wd, name + '.trace.ndjson')
+    args = [binary, sub]
+    if spec is not None:
+        sp = os.path.join(wd, name + '.spec.json')
+        json.dump(spec, open(sp, 'w'))
+        args.append(sp)
+    args.append(out)
+    if sub == 'burst':
+        args.append(wd)
+    p = subprocess.run(args, stdout=subprocess.DEVNULL, stderr=subprocess.PIPE, text=True, timeout=3600)
+    if p.returncode != 0:
+        raise ToolError('sqv %s failed: %s' % (sub, p.stderr[-2000:]))
+    return out
+
+
+def nibs(h):
+    return [int(c, 16) for c in h]
+
+
+def valid_squitters(rng, n):
+    """n valid DF17/DF18/DF11 squitters of several type codes"""
+    out = []
+    y0, x0 = cpr_encode(48.1, 11.5, 0)
+    mk = [
+        lambda a: df17(5, a, me_airpos(11, 0, enc_alt12(36000), 0, y0, x0)),
+        lambda a: df17(5, a, me_ident(4, 2, callsign_codes('DLH4AB'))),
+        lambda a: df11(5, a, 0),
+        lambda a: df17(5, a, me_velocity(1, 1, 120, 0, 400, 1, 15)),
+        lambda a: df11(5, a, 9),
+        lambda a: df17(2, a, me_ident(2, 3, callsign_codes('TUG7')), df=18),
+        lambda a: df17(5, a, me_opstatus(2)),
+        lambda a: df17(0, a, me_surface(6, 30, 1, 90, 1, y0, x0)),
+        lambda a: df11(7, a, 127),
+        lambda a: df17(5, a, me_raw(29, rng.getrandbits(51))),
+    ]
+    for k in range(n):
+        out.append(mk[k % len(mk)](0x3c6000 + rng.getrandbits(12)))
+    return out
+
+
+# ----------------------------------------------------------------------------------------- C02
+DECOR = [b'*', b'@', b';', b' ', b'\t', b'\r', b'g', b'G', b'x', b':', b'-', b'\xc3\xa9', b'\xef\xbc\x91', b'\x00']
+
+
+def decorate(rng, digits, k):
+    """insert k decoration tokens at random places, random letter case"""
+    parts = [bytes([c]) for c in digits.encode()]
+    parts = [p.lower() if rng.random() < 0.5 else p.upper() for p in parts]
+    for _ in range(k):
+        parts.insert(rng.randrange(len(parts) + 1), rng.choice(DECOR))
+    return list(b''.join(parts))
+
+
+def c02(tier):
+    rep = Report('C02', tier)
+    rng = random.Random(vlib.seed())
+    a = 0x4840d6
+    valid = [df17(5, a, me_ident(4, 1, callsign_codes('KLM1023'))), short(4, enc_alt13(30000), a), df11(5, a),
+             long_(20, enc_alt13(30000), mb20(callsign_codes('KLM1023')), a), short(5, enc_squawk(1, 0, 0, 0), a)]
+    lines = []
+    # every DF value against both lengths, plain and with a 12-digit time stamp prefix
+    for dfv in range(32):
+        data56 = pack([(dfv, 5), (rng.getrandbits(3), 3), (a, 24)])
+        data112 = data56 + bits_of(rng.getrandbits(56), 56)
+        for data in (data56, data112):
+            for fr in (hexs(with_pi(data)), hexs(with_ap(data, a))):
+                lines.append(list(fr.encode()))
+                lines.append(list(('%012X' % rng.getrandbits(48) + fr).encode()))
+    # digit counts 0..64 built from valid frames (padded / truncated)
+    counts = range(0, 65) if tier == 'thorough' else [0, 1, 12, 13, 14, 15, 25, 26, 27, 28, 29, 38, 39, 40, 41, 42, 52, 54, 56, 64]
+    for n in counts:
+        for v in valid:
+            src = (v * 5)[:n]
+            lines.append(list(src.encode()))
+            tail = (('%064X' % rng.getrandbits(256)) + v)[-n:] if n else ''
+            lines.append(list(tail.encode()))
+    # decorated forms of valid and invalid lines
+    nd = 400 if tier == 'quick' else 20000
+    for _ in range(nd):
+        v = rng.choice(valid)
+        if rng.random() < 0.3:
+            v = '%012X' % rng.getrandbits(48) + v
+        if rng.random() < 0.25:
+            v = v[:rng.randrange(len(v) + 1)] + rng.choice('0123456789abcdefABCDEF') * rng.randrange(1, 3) + v[rng.randrange(len(v)):]
+        lines.append(decorate(rng, v, rng.randrange(0, 4)))
+    # classic receiver formats
+    lines.append(list(('*' + valid[0] + ';').encode()))
+    lines.append(list(('@' + '%012X' % rng.getrandbits(48) + valid[0] + ';\r').encode()))
+    lines.append(list(('  ' + valid[1].lower() + '  ').encode()))
+    groups = []
+    for opts in ([], ['-U']):
+        for i in range(0, len(lines), 50):
+            part = lines[i:i + 50]
+            g = [reset(opts)]
+            for l in part:                      # empty table
+                g.append(run1(l, direct=True))
+                g.append(reset(opts))
+            g.append(run1(df11(5, a)))          # table holding the aircraft
+            for l in part:
+                g.append(run1(l, direct=True))
+            groups.append(g)
+    conform(rep, 'C02', groups, maxlen=2500)
+    rep.rule = ('lines: every DF 0..31 as 14- and 28-digit frame (valid parity / address overlay) with and without 12-digit '
+                'time stamp; digit counts %s cut from valid frames; %d randomly decorated / case-mixed / digit-inserted variants '
+                '(decorations * @ ; blank tab CR g G x : - e-acute fullwidth-1 NUL); each on an empty table and on a table holding '
+                'the aircraft, with and without -U, with the public get_message/get_icao called on the same line. Every event is '
+                'judged (accept <=> oracle, reject => table untouched); distinct = distinct (line, context)'
+                % ('0..64' if tier == 'thorough' else 'around 0/14/26/28/40/64', nd))
+    vlib.nt_floor(rep, 500)
+    return rep
+
+
+# ----------------------------------------------------------------------------------------- C03
+def nine_frames(a, rng):
+    """one frame of each of the nine formats for aircraft a, random payload"""
+    r13 = lambda: rng.getrandbits(13)
+    r14 = lambda: rng.getrandbits(14)
+    mb = lambda: bits_of(rng.getrandbits(56), 56)
+    return [short(0, r13(), a, r14()), short(4, r13(), a, r14()), short(5, r13(), a, r14()), df11(rng.getrandbits(3), a, rng.choice([0, 0, 5, 127])),
+            long_(16, r13(), mb(), a, r14()), df17(rng.getrandbits(3), a, mb()), df17(rng.getrandbits(3), a, mb(), df=18),
+            long_(20, r13(), mb(), a, r14()), long_(21, r13(), mb(), a, r14())]
+
+
+def c03(tier):
+    rep = Report('C03', tier)
+    rng = random.Random(vlib.seed())
+    groups = []
+    others = [0x100001, 0xFFFFFF, 0x4840d7]
+    nrep = 12 if tier == 'quick' else 400
+    for opts in OPTSETS:
+        for k in range(nrep):
+            g = [reset(opts)]
+            for b in others:
+                g.append(run1(df11(5, b)))
+                g.append(run1(short(5, rng.getrandbits(13), b)))
+            addrs = [rng.choice([1, 2, 0x800000, 0xFFFFFE, 0x4840d6, 0x4840d5]), rng.getrandbits(24) or 1]
+            seq = []
+            for a in addrs:
+                seq += nine_frames(a, rng)
+            seq += nine_frames(0, rng)           # address zero: dropped
+            seq += nine_frames(rng.choice(others), rng)
+            rng.shuffle(seq)
+            for l in seq:
+                g.append(run1(l, direct=True))
+            groups.append(g)
+    # single-bit and two-bit payloads (linearity of the CRC) for the AP formats
+    g = [reset([])]
+    a = 0x4b18fe
+    for dfv in (0, 4, 5):
+        for bit in range(27):
+            g.append(run1(hexs(with_ap(pack([(dfv, 5), (1 << bit, 27)]), a)), direct=True))
+    for dfv in (16, 20, 21):
+        for bit in range(0, 83, 1 if tier == 'thorough' else 3):
+            data = pack([(dfv, 5)]) + bits_of(1 << bit, 83)
+            g.append(run1(hexs(with_ap(data, a)), direct=True))
+    groups.append(g)
+    conform(rep, 'C03', groups, maxlen=2500)
+    # exhaustive AP / AA sweep through the public get_icao, reduced to run-length form
+    binary = vlib.build_harness('release')
+    step = 1 if tier == 'thorough' else 61
+    cases = []
+    for i, l in enumerate(nine_frames(0x4ca86e, rng)):
+        fld = 'aa' if l[0] in '58' and len(l) == 14 or l[:2] in ('8D', '88', '89', '8A', '8B', '8C', '8E', '8F', '90', '91', '92', '93', '94', '95', '96', '97') else 'ap'
+        dfv = int(l[:2], 16) >> 3
+        fld = 'aa' if dfv in (11, 17, 18) else 'ap'
+        cases.append({'id': i, 'nib': nibs(l), 'field': fld, 'step': step})
+    tr = sweep_tool(binary, 'icaosweep', {'cases': cases}, 'icaosweep')
+    res = vlib.validate([tr], 'C03')
+    rep.add_validation(res)
+    rep.extra['address_sweep'] = {'formats': 9, 'values_per_format': (1 << 24) // step + 1, 'step': step,
+                                  'transform': 'run-length encoding of get_icao(frame(v)) XOR v'}
+    rep.exhaustive = tier == 'thorough'
+    rep.rule = ('(i) per option set, %d tables holding 3 other aircraft, then shuffled frames of all nine formats (random payloads) '
+                'for two aircraft, for address 0 and for one of the existing aircraft, one event each: changed rows and new keys must '
+                'be within {Address(frame)}, address 0 dropped, get_icao = oracle; (ii) all 1-bit payloads of the AP formats; '
+                '(iii) AP/AA field swept over %s values per format through get_icao, judged in run-length form. Non-trivial = applied '
+                'frame of a nine-format DF; distinct by (line, slot)' % (nrep, 'all 2^24' if step == 1 else 'every 61st of 2^24'))
+    vlib.nt_floor(rep, 500)
+    return rep
+
+
+# ----------------------------------------------------------------------------------------- C04
+def c04(tier):
+    rep = Report('C04', tier)
+    rng = random.Random(vlib.seed())
+    sq = valid_squitters(rng, 3 if tier == 'quick' else 10)
+    groups = []
+    for fr in sq:
+        nb = len(fr) * 4
+        singles = [[p] for p in range(6, nb + 1)]
+        pairs = [[p, q] for p in range(6, nb + 1) for q in range(p + 1, nb + 1)]
+        if tier == 'quick':
+            pairs = rng.sample(pairs, 700)
+        heavy = [sorted(rng.sample(range(6, nb + 1), rng.randrange(3, 12))) for _ in range(100 if tier == 'quick' else 1500)]
+        pats = singles + pairs + heavy
+        a = int(fr[2:8], 16)
+        for ctx in (0, 1):
+            for i in range(0, len(pats), 300):
+                g = [reset(['-U'] if (i // 300) % 2 else [])]
+                if ctx:
+                    g.append(run1(fr))                          # the valid squitter itself: applied
+                    g.append(run1(short(5, enc_squawk(1, 2, 3, 4), a)))
+                for p in pats[i:i + 300]:
+                    g.append(run1(F.flip(fr, p), direct=True))
+                    if not ctx:
+                        g.append(reset([]))
+                groups.append(g)
+    conform(rep, 'C04', groups, maxlen=2500)
+    # all burst errors up to 12 (quick) / 24 (thorough) bits through the public get_message
+    binary = vlib.build_harness('release')
+    maxlen = 12 if tier == 'quick' else 24
+    cases = [{'id': i, 'nib': nibs(fr), 'maxlen': maxlen, 'lo': 6, 'hi': len(fr) * 4} for i, fr in enumerate(sq)]
+    tr = sweep_tool(binary, 'burst', {'cases': cases}, 'burst')
+    res = vlib.validate([tr], 'C04')
+    rep.add_validation(res)
+    tried = sum(e['tried_k'] for e in vlib.read_ndjson(tr))
+    rep.extra['burst_sweep'] = {'squitters': len(sq), 'max_burst_len': maxlen, 'variants_tried_thousands': tried}
+    rep.exhaustive = tier == 'thorough'
+    rep.rule = ('%d valid squitters (DF17 of several type codes, DF18, DF11 with II=0 and II!=0) x all 1-bit errors, %s 2-bit errors and '
+                'random heavier patterns confined to bits 6..end, on an empty table and on a table holding the aircraft, one event each '
+                '(table must stay untouched when the oracle says parity fails); all burst patterns up to %d bits via get_message in '
+                'reduced form. Non-trivial = corrupted frame whose syndrome the oracle finds non-zero (DF11: upper 17 bits)'
+                % (len(sq), 'all' if tier == 'thorough' else '700 sampled', maxlen))
+    vlib.nt_floor(rep, 1000)
+    return rep
+
+
+CHECKS.update({'C02': c02, 'C03': c03, 'C04': c04})
